@@ -959,6 +959,32 @@ pub fn gen_doc_with(t: &mut Tape, o: &Opts, words: Vec<&'static str>, bad: Vec<c
     Doc { nodes, final_newline, unit }
 }
 
+/// A document that nests `k` block elements (conditions taken in turn from `conds`, unwrap-blocks get code wrapper lines)
+/// around `inner`; ids 1..=k from the outside in, `inner` must use ids above k.
+pub fn deep_doc(k: usize, conds: &[(Cond, bool)], unit: &str, inner: Vec<Node>) -> Doc {
+    let mut nodes = inner;
+    for level in (0..k).rev() {
+        let (cond, unwrap) = conds[level % conds.len()].clone();
+        let ind = unit.repeat(level.min(6));
+        let elem = Elem { id: level + 1, cond, skip: false, unwrap, style: 0 };
+        let mut kids = vec![];
+        if unwrap {
+            kids.push(Node::Line(format!("{ind}if (x{level}) {{")));
+        }
+        kids.push(Node::Line(format!("{ind}{unit}before{level}();")));
+        kids.extend(nodes);
+        kids.push(Node::Line(format!("{ind}{unit}after{level}();")));
+        if unwrap {
+            kids.push(Node::Line(format!("{ind}}}")));
+        }
+        nodes = vec![Node::Block { indent: ind.clone(), open_lead: String::new(), elem, open_trail: String::new(), kids, close_indent: ind, close_lead: String::new(), close_trail: String::new() }];
+    }
+    let mut all = vec![Node::Line("start();".into())];
+    all.extend(nodes);
+    all.push(Node::Line("end();".into()));
+    Doc { nodes: all, final_newline: true, unit: unit.to_string() }
+}
+
 pub fn gen_acfg(t: &mut Tape) -> ACfg {
     ACfg { now_idx: t.below(5), targets: t.below(8) as u8 }
 }
